@@ -904,6 +904,10 @@ class Emitter:
                     var = self.v(s[1][1])
                     return (f"let out := out ++ ({self.cfg['iters'][key]}).map (fun {var} => ({bw[1]}, {bw[2]}))\n"
                             f"{cont(scope)}")
+                if bw is not None and bw[0] == "list":
+                    var = self.v(s[1][1])
+                    return (f"let out := out ++ ({self.cfg['iters'][key]}).flatMap (fun {var} => {bw[1]})\n"
+                            f"{cont(scope)}")
         if kind == "for" and self.cfg.get("writes") and self.rust_text(s[2]) in self.cfg.get("iters", {}) and s[1][0] == "pvar":
             # a loop over a slice whose body writes and updates local variables: a left fold over the
             # list, carrying `out` and the variables the body assigns
